@@ -17,6 +17,8 @@ type Atom struct {
 	Expr string
 	Pos  bool
 	V    ssa.Value // the un-negated condition value
+	// For equality tests against a constant: the other operand and the constant.
+	EqLHS, EqConst string
 }
 
 func (a Atom) String() string {
@@ -36,10 +38,32 @@ func MkAtom(cond ssa.Value, pol bool) Atom {
 		}
 		break
 	}
-	if b, ok := cond.(*ssa.BinOp); ok && b.Op == token.NEQ {
-		return Atom{Expr: "(" + Render(b.X) + " == " + Render(b.Y) + ")", Pos: !pol, V: cond}
+	if b, ok := cond.(*ssa.BinOp); ok && (b.Op == token.NEQ || b.Op == token.EQL) {
+		a := Atom{Expr: "(" + Render(b.X) + " == " + Render(b.Y) + ")", Pos: pol, V: cond}
+		if b.Op == token.NEQ {
+			a.Pos = !pol
+		}
+		if _, isC := Unwrap(b.Y).(*ssa.Const); isC {
+			a.EqLHS, a.EqConst = Render(b.X), Render(b.Y)
+		} else if _, isC := Unwrap(b.X).(*ssa.Const); isC {
+			a.EqLHS, a.EqConst = Render(b.Y), Render(b.X)
+		}
+		return a
 	}
 	return Atom{Expr: Render(cond), Pos: pol, V: cond}
+}
+
+// Contradicts reports whether two atoms cannot hold together when compared by
+// their rendered expressions (sound only if the memory the expressions read is
+// not written between the two tests — callers establish that).
+func (a Atom) Contradicts(b Atom) bool {
+	if a.Expr == b.Expr && a.Pos != b.Pos {
+		return true
+	}
+	if a.EqLHS != "" && a.EqLHS == b.EqLHS && a.EqConst != b.EqConst && a.Pos && b.Pos {
+		return true
+	}
+	return false
 }
 
 // edgeAtom returns the atom established by travelling from block b to its
